@@ -313,3 +313,29 @@ def _norms(chk):
                 want = "normalised scores handed to inverse_transform are multiplied by the norms"
             chk.check(ok, "MIRROR.norms", fn, b, why=f"{want}; found {op} under normalized={pol}", facts={"op": op, "normalized": pol, "norm": sorted(keys)})
     chk.info["norm_switch_sites"] = n
+    # presence: a `normalized` switch that neither applies a norm under it nor hands it on has no effect, and the two
+    # settings no longer differ by the per-mode norms
+    for fn in pm.all_functions():
+        if fn.cls is None or "normalized" not in fn.params or fn.is_abstract:
+            continue
+        if all(isinstance(x, (ast.Raise, ast.Expr, ast.Pass)) for x in fn.node.body):
+            continue  # abstract by convention (raise NotImplementedError) or docstring only
+        ff = FuncFacts.of(fn)
+        uses = [x for x in walk_no_nested(fn.node) if isinstance(x, ast.Name) and x.id == "normalized" and isinstance(x.ctx, ast.Load)]
+        forwarded = False
+        par = ff.cfg.parents()
+        for u in uses:
+            p = par.get(id(u))
+            if isinstance(p, ast.keyword) or isinstance(p, ast.Call):
+                forwarded = True
+        applies = False
+        for b in [x for x in walk_no_nested(fn.node) if isinstance(x, (ast.BinOp, ast.AugAssign)) and isinstance(x.op, (ast.Mult, ast.Div))]:
+            other = b.right if isinstance(b, ast.BinOp) else b.value
+            if any((p.container_key() or ("", ""))[1] in ("norms", "norm1", "norm2") for p in ff.paths(other, spine_only=True, follow=True)):
+                from .common import atomic_conditions
+                if any(isinstance(t, ast.Name) and t.id == "normalized" for t, _ in atomic_conditions(ff, b)):
+                    applies = True
+        # a helper that receives `normalized`-dependent values (norm=None if normalized else ...) counts as forwarding
+        chk.check(forwarded or applies, "MIRROR.norms.switch", fn, fn.node, construct=f"{fn.qualname}: the normalized switch is applied or handed on",
+                  why="the 'normalized' parameter neither guards a multiplication / division by the per-mode norms nor is passed on: "
+                      "both settings return the same numbers")
